@@ -498,6 +498,18 @@ func (r *Reader) traverseNodeFiltered(n *html.Node, ctx *parseContext, elements 
 					}
 				}
 				ctx.listLevel--
+				return
+			}
+			// An item without an enclosing list: keep its content like a paragraph
+			if text := strings.TrimSpace(getTextContent(n)); text != "" && !isBlockContainer(n) {
+				*elements = append(*elements, parsedElement{
+					Type: ElementParagraph,
+					Text: text,
+				})
+				return
+			}
+			for c := n.FirstChild; c != nil; c = c.NextSibling {
+				r.traverseNodeFiltered(c, ctx, elements)
 			}
 			return
 
